@@ -159,7 +159,8 @@ class ExprCheck:
                     "repeated with another context, repeated with the first, and as array lengths of parsed structures; "
                     "non-trivial = distinct text with a value inside the guarded domain")
         rep.assumptions += ["values guarded to |v| < 2^24, shift counts <= 20, / and % on non-negative / positive operands (the property's domain)"]
-        run_mc(rep, "MC_Expr", cfg="MC_Expr_leaves")
+        run_mc(rep, "MC_Expr", cfg="MC_Expr_leaves", coverage=False)     # no parentheses arise with <= 1 operator: Close is dead here
+        run_mc(rep, "MC_Expr", cfg="MC_Expr_parens")                       # <= 2 operators over literals: parentheses, every action taken
         if thorough:
             run_mc(rep, "MC_Expr", cfg="MC_Expr", timeout=3000)
         # negative control: with the pre-fix unary marker "u" TLC must produce the counter-example of finding F8
